@@ -244,7 +244,7 @@ def walk_counts(node, options, from_stage, operator_row):
     return header_selected(node, options) or (operator_row and not cancelled_operator(node, from_stage))
 
 
-def mk_walk_node(e):
+def mk_recovery_node(e):
     tok = e.new_any('token', [HeaderToken, SpineOperationToken, SimpleToken],
                     {'encoding': e.str_sym('encoding', ['**kern', '**text', '*^', '*v', '*', '4c']), 'category': e.enum('category', TokenCategory), 'hidden': False,
                      'cancelled_at_stage': e.int('cancelled_at_stage'), 'cancelled_before': e.bool('cancelled_before'), 'spine_id': e.int('spine_id', 0)})
@@ -268,7 +268,7 @@ class export_string_walk_step:
     assumes = (A_WALK, 'domain: nodes with a spine operator above them; a non-empty row of nodes that is not the root row')
 
     def inputs(g):
-        nodes = g.seq('next_nodes', mk_walk_node)
+        nodes = g.seq('next_nodes', mk_recovery_node)
         g.assume(len(nodes) > 0)
         from contracts.shapes import mk_tree
         from kernpy.core.document import Document
@@ -348,3 +348,79 @@ class export_string_walk_head:
 
     def cut_walk_starts_at_the_row_that_opens_the_excerpt(document, options, from_stage, next_nodes, rows):
         return conj(from_stage == document.measure_start_tree_stages[options.from_measure - 1], next_nodes is document.tree.stages[from_stage], len(rows) == 0)
+
+
+# ------------------------------------------------------------------------------------------------ the signature rows of an excerpt
+def mk_signed_node(g):
+    """a node of the first row of the excerpt with any subset of clef / key signature / meter in force above it"""
+    from kernpy.core.document import SignatureNodes
+    sigs = {}
+    for cls_name in ('ClefToken', 'KeySignatureToken', 'TimeSignatureToken'):
+        if g.choice('in force.' + cls_name, [True, False]):
+            sigs[cls_name] = mk_node(g, mk_sig_token(g, cls_name), None, None, 5 + len(sigs))
+    tok = mk_any_token(g, 'BarToken')
+    n = g.new(Node, {'id': g.int('node.id', 1), 'token': tok, 'parent': None, 'children': [], 'stage': g.int('node.stage', 1), 'header_node': None,
+                     'last_signature_nodes': g.new(SignatureNodes, {'nodes': sigs}, None), 'last_spine_operator_node': None}, None)
+    return n, sigs
+
+
+@contract(EX + 'Exporter.is_signature_cancelled', props=['C08'], name='is_signature_cancelled_summary', local=True,
+          assumed='is_signature_cancelled(s, n, a, b) is the relation R of contract is_signature_cancelled (verified there)')
+class is_signature_cancelled_summary:
+    def model(signature_node, node, from_stage, to_stage):
+        return R(type(signature_node.token).__name__, node, from_stage, to_stage)
+
+
+@contract(EX + 'Exporter.export_string', props=['C08'], name='export_string_signature_step')
+class export_string_signature_step:
+    """One iteration of the loop that collects the signatures in force at the start of an excerpt (`for node in
+    document.tree.stages[from_stage]`), for an arbitrary node of that row and any signatures recorded so far: the node contributes the
+    exported texts of the signatures in force above it that are not restated inside the excerpt (relation R), in the order they came
+    into force; a node without such a signature contributes nothing; the contributions are collected in the order of the nodes, the
+    earlier ones untouched; a node that contributes a different number of signatures than the first one is refused with an
+    exception (the known finding 'unequal signature sets' is this branch)."""
+    step = 'for node in document.tree.stages[from_stage]'
+    uses = ('export_token_summary_for_walk', 'is_signature_cancelled_summary')
+    assumes = (A_WALK,)
+
+    def inputs(g):
+        node, sigs = mk_signed_node(g)
+        state = g.choice('collected so far', ['nothing', 'one spine'])
+        first = None
+        if state == 'one spine':
+            count = g.choice('first.count', [1, 2, 3])
+            first = []
+            for k in range(count):
+                first.append(g.str_sym(f'first.{k}', ['*clefF4', '*k[b-]', '*M4/4']))
+        from kernpy.core.document import Document
+        from contracts.shapes import mk_tree
+        document = g.new(Document, {'tree': mk_tree(g), 'measure_start_tree_stages': [], 'page_bounding_boxes': {}, 'header_stage': None}, None)
+        options = g.new(_ExportOptions, {'spine_types': ['**kern'], 'from_measure': 1, 'to_measure': None, 'token_categories': list(TokenCategory),
+                                         'kern_type': _Encoding.normalizedKern, 'instruments': None, 'show_measure_numbers': False, 'spine_ids': None}, None)
+        collected = None if first is None else [first]
+        return {'self': g.new(Exporter, {}, ()), 'document': document, 'options': options, 'rows': [], 'node': node, 'from_stage': g.int('from_stage', 1),
+                'to_stage': g.int('to_stage', 1), 'node_signatures': collected, '_sigs': sigs, '_first': first}
+
+    modifies = ('node_signatures', 'self.**')
+
+    def _mine(node, sigs, options, from_stage, to_stage):
+        mine = []
+        for cls_name, s in sigs.items():
+            if not R(cls_name, node, from_stage, to_stage):
+                mine.append(WALK_TEXT(s, options))
+        return mine
+
+    def raises(node, sigs, options, from_stage, to_stage, first):
+        mine = export_string_signature_step._mine(node, sigs, options, from_stage, to_stage)
+        return {'Exception': conj(first is not None, len(mine) > 0, False if first is None else len(first) != len(mine))}
+
+    def post_contribution_collected_in_order(node_signatures, node, sigs, options, from_stage, to_stage, first):
+        mine = export_string_signature_step._mine(node, sigs, options, from_stage, to_stage)
+        if len(mine) == 0:
+            return node_signatures is None if first is None else node_signatures == [first]
+        if first is None:
+            return node_signatures == [mine]
+        return node_signatures == [first, mine]
+
+    def post_loop_goes_on(flow):
+        return flow == 'next'
